@@ -219,6 +219,11 @@ func adversarial(thorough bool) [][]byte {
 			}
 		}
 	}
+	// nesting right at the limit, bare and as a tag's content (Tag[T] gives its content a fresh nesting budget)
+	for _, n := range []int{62, 63, 64, 65} {
+		deep := append(rep([]byte{0x81}, n), 0x00)
+		out = append(out, deep, append([]byte{0xc1}, deep...), append([]byte{0xd8, 0x18}, deep...))
+	}
 	// breadth without depth: k empty arrays / maps side by side (depth 2), also as a tag's content
 	for _, k := range []int{63, 64, 65, 200} {
 		for _, inner := range []byte{0x80, 0xa0} {
